@@ -96,7 +96,7 @@ func TestPeerstoreConsume(t *testing.T) {
 	name := t.Name()
 	hx.Check(t, 3000, 60000, 0, func(rt *rapid.T) {
 		peer.AdvancedEnableInlining = true
-		signer := drawKey(rt, "signer")
+		signer := drawSigner(rt, "signer")
 		kind := rapid.SampledFrom([]string{"match", "match", "other-key", "other-key-same-type", "other-hash", "bitflip-id", "identity-of-prefix", "truncated-digest"}).Draw(rt, "claim")
 		var claimed peer.ID
 		var victim *kp
@@ -155,7 +155,7 @@ func TestPeerstoreConsume(t *testing.T) {
 				rt.Fatalf("a validly sealed peer record of the signer itself is refused by ConsumeEnvelope: %v", err)
 			}
 			// the claimed ID does not even decode: refused before any book is involved
-			stats.Case(name, fp(signer.tag, kind, []byte(claimed), seq, fmt.Sprint(addrs)), true, signer.typ, "claim:"+kind, "refused-at-decode")
+			stats.Case(name, fp(signer.tag, kind, []byte(claimed), seq, fmt.Sprint(addrs)), true, signer.typ, classLabel(signer.cls), "claim:"+kind, "refused-at-decode")
 			return
 		}
 		prec, ok := rrec.(*peer.PeerRecord)
@@ -237,7 +237,7 @@ func TestPeerstoreConsume(t *testing.T) {
 		if prior {
 			pr = "victim-record-present"
 		}
-		stats.Case(name, fp(signer.tag, kind, []byte(claimed), seq, fmt.Sprint(addrs), prior, dsCache), !matches, signer.typ, "claim:"+kind, pr)
+		stats.Case(name, fp(signer.tag, kind, []byte(claimed), seq, fmt.Sprint(addrs), prior, dsCache), !matches, signer.typ, classLabel(signer.cls), "claim:"+kind, pr)
 		if stats.WantSample(name) {
 			stats.Sample(name, map[string]any{"signer": signer.tag, "claim": kind, "claimedID": fmt.Sprintf("%x", claimed), "prior": prior})
 		}
